@@ -270,8 +270,13 @@ int main(int argc, char** argv) {
 	else if (part == "branch") { // CBRANCH with engineered 0 / 1 / 2 consecutive takes, and concretised abstract programs (W, S, N, B over r0-r2)
 		int np = atoi(arg(argc, argv, "--np", thorough ? "2197" : "500"));
 		for (int pi = 0; pi < np; ++pi) {
+			// the last CFROUND word of the previous program (the engines are reused from program to program: whatever a code generator remembers about
+			// the program it compiled before must not leak into this one)
+			uint8_t carry[8]; bool haveCarry = false;
+			if (pi > 0) for (int q = 383; q >= 0 && !haveCarry; --q) if (P.buf[128 + 8 * q] == 239) { memcpy(carry, P.buf + 128 + 8 * q, 8); haveCarry = true; }
 			rng.fill(P.buf, 128); nop_fill(P, rng);
 			int n = 0;
+			if (haveCarry && rng.below(2)) { memcpy(P.buf + 128, carry, 8); n = 1; if (rng.below(2)) { static const uint8_t fpo[] = { 124, 145, 172, 208, 140, 204 }; put(P, n++, fpo[rng.below(6)], (uint8_t)rng.next(), (uint8_t)rng.next(), (uint8_t)rng.next(), imm_value(rng)); } }
 			int len = 3 + (int)rng.below(thorough ? 4 : 3);
 			for (int a = 0; a < len && n < 40; ++a) {
 				int kind = (int)rng.below(18); uint8_t d = (uint8_t)rng.below(3), s2 = (uint8_t)((d + 1 + rng.below(2)) % 3);
@@ -286,17 +291,44 @@ int main(int argc, char** argv) {
 				}
 				if (kind >= 15) { // L(d): a loop whose body is really re-executed: set d; body that does not write d and has no branch; CBRANCH d taken once or twice
 					uint8_t cond = (uint8_t)rng.below(16); int b = cond + 8; int want = 1 + (int)rng.below(2);
+					// twin variant: the last writer of d is an immediate-operand writer W, and the instruction the branch jumps to is the SAME word on another
+					// register (a code generator that carries state from one instruction to the next - a constant left in a temporary, a folded
+					// pair - must not rely on it at a jump target); the body uses the temporaries of the high multiplications / memory operands
+					bool twin = rng.below(3) == 0; uint8_t wop = 0; uint32_t wim = 0;
+					if (twin) { static const uint8_t tw[] = { 23, 46, 86, 106, 114, 84, 76, 76, 76 }; wop = tw[rng.below(9)]; wim = imm_value(rng);
+						if (wop == 76 && (wim == 0 || (wim & (wim - 1)) == 0)) wim = 3 + 2 * (uint32_t)rng.below(100000); }
+					auto apply_w = [&](uint64_t v) -> uint64_t { uint64_t sx = (uint64_t)(int64_t)(int32_t)wim;
+						switch (wop) { case 23: return v - sx; case 46: return v * sx; case 86: return v ^ sx; case 106: return (v >> (wim & 63)) | (v << ((64 - (wim & 63)) & 63));
+							case 114: return (v << (wim & 63)) | (v >> ((64 - (wim & 63)) & 63)); case 84: return 0 - v;
+							case 76: { int bl = 64 - __builtin_clzll((uint64_t)wim); return v * (uint64_t)((((unsigned __int128)1) << (63 + bl)) / wim); } }
+						return v; };
 					uint32_t im = 0, d0 = 0; bool found = false;
 					for (int tr = 0; tr < 4000000 && !found; ++tr) {
 						im = (uint32_t)rng.next(); d0 = (uint32_t)rng.next();
 						uint64_t cimm = ((uint64_t)(int64_t)(int32_t)im | (1ull << b)) & ~(1ull << (b - 1));
 						uint64_t v = (uint64_t)(int64_t)(int32_t)d0; int takes = 0;
+						if (twin) v = apply_w(v);
 						for (int k = 0; k < 3; ++k) { v += cimm; if ((v & (255ull << b)) == 0) ++takes; else break; }
 						found = takes == want;
 					}
 					put(P, n++, 46, d, d, 0, 0); put(P, n++, 23, d, d, 0, (uint32_t)(0 - d0));
 					int body = 1 + (int)rng.below(4);
-					bool rmotif = rng.below(3) == 0;      // body = rounding FP instruction(s) then CFROUND, and a CFROUND right after the loop: the re-executed FP instruction must use the mode set INSIDE the loop
+					if (twin) { uint8_t e = (uint8_t)((d + 1 + rng.below(7)) % 8), e2 = (uint8_t)((d + 1 + rng.below(7)) % 8);
+						put(P, n++, wop, d, d, 0, wim); put(P, n++, wop, e, e, 0, wim);
+						static const uint8_t clob[] = { 66, 70, 71, 75, 62, 16, 101, 39 };
+						put(P, n++, clob[rng.below(8)], e2, (uint8_t)rng.next(), (uint8_t)rng.next(), imm_value(rng)); }
+					bool rmotif = !twin && rng.below(3) == 0;
+					// span variant: the same CFROUND word stands before the setter of d and again at the jump target; its source register is written inside
+					// the body, so the re-executed copy selects another mode (a code generator that drops the second copy as redundant is wrong at a jump target)
+					bool span = !twin && !rmotif && rng.below(3) == 0;
+					if (span) { uint8_t sr = (uint8_t)((d + 1 + rng.below(7)) % 8); uint32_t rot = (uint32_t)rng.below(64); uint8_t dj = (uint8_t)rng.next();
+						static const uint8_t fpo[] = { 124, 145, 172, 208, 140, 204 };
+						// the two setter words were just emitted at n-2, n-1: move them behind the first copy
+						uint8_t tmp[16]; memcpy(tmp, P.buf + 128 + 8 * (n - 2), 16); put(P, n - 2, 239, dj, sr, 0, rot); memcpy(P.buf + 128 + 8 * (n - 1), tmp, 16); ++n;
+						put(P, n++, 239, dj, sr, 0, rot);
+						put(P, n++, fpo[rng.below(6)], (uint8_t)rng.next(), (uint8_t)rng.next(), (uint8_t)rng.next(), imm_value(rng));
+						put(P, n++, 86, sr, sr, 0, (uint32_t)rng.next());          // IXOR_R sr, imm
+						body = (int)rng.below(2); }      // body = rounding FP instruction(s) then CFROUND, and a CFROUND right after the loop: the re-executed FP instruction must use the mode set INSIDE the loop
 					if (rmotif) {
 						static const uint8_t fpo[] = { 124, 145, 172, 208, 140, 204 };
 						put(P, n++, fpo[rng.below(6)], (uint8_t)rng.next(), (uint8_t)rng.next(), (uint8_t)rng.next(), imm_value(rng));
